@@ -127,7 +127,7 @@ class Ctx:
         self.models.append({"model": name, "generated": r.generated, "distinct": r.distinct,
                             "depth": r.depth, "wall_s": round(r.wall_s, 1),
                             "mode": ("simulate " + simulate) if simulate else "bfs",
-                            "violated": r.violated})
+                            "violated": r.violated, "out_path": out_path})
         if expect_violation is None:
             if r.error:
                 raise ToolError(f"TLC {name}: {r.error}")
